@@ -155,6 +155,33 @@ func Inject(info *prom.ConfigInfo, assigned map[string][]*target.Target, opt sid
 	return data, nil
 }
 
+// Step is one input of an injector history: a new configuration and/or a new assignment.
+type Step struct {
+	Info     *prom.ConfigInfo
+	Assigned map[string][]*target.Target
+}
+
+// InjectHistory feeds the steps to ONE injector (as a running sidecar sees them) and returns the file
+// generated after the last step.
+func InjectHistory(steps []Step, opt sidecar.InjectConfigOptions) ([]byte, error) {
+	inj := sidecar.NewInjector("/nonexistent/out.yml", opt, prometheus.NewRegistry(), quiet)
+	var data []byte
+	inj.VerifSetWriteFile(func(fn string, d []byte, perm os.FileMode) error { data = append([]byte{}, d...); return nil })
+	for _, st := range steps {
+		if st.Info != nil {
+			if err := inj.ApplyConfig(st.Info); err != nil {
+				return nil, err
+			}
+		}
+		if st.Assigned != nil {
+			if err := inj.UpdateTargets(st.Assigned); err != nil {
+				return nil, err
+			}
+		}
+	}
+	return data, nil
+}
+
 type recTransport struct{ urls []*url.URL }
 
 func (r *recTransport) RoundTrip(req *http.Request) (*http.Response, error) {
